@@ -219,39 +219,41 @@ def _discs(ctx):
     rep.saw(co_)
     t = Tracer(ab)
     r = t.origin({'k': 'copy', 'l': 0, 'p': []})
+    from ..nest import Nest, single_loop_sum
+    nst = Nest(f, ab, yields=False)
+    r = nst.tr.origin({'k': 'copy', 'l': 0, 'p': []})
     ok = r['o'] == 'rvalue' and r['rv']['r'] == 'binop' and r['rv']['op'] == 'Sub'
     why = 'area is not total - overlaps'
     if ok:
-        s1, c1 = adaptor_chain(t, r['rv']['a'])
-        s2, c2 = adaptor_chain(t, r['rv']['b'])
-        n1, n2 = [c[0] for c in c1], [c[0] for c in c2]
-        ok = n1[:2] == ['sum', 'map'] and 'tuple_combinations' not in n1 and n2[:3] == ['sum', 'map', 'tuple_combinations'] and \
-            all(x in ('sum', 'map', 'iter', 'deref', 'tuple_combinations') for x in n1 + n2) and \
-            field_path(s1.get('p', [])) == ['items'] and field_path(s2.get('p', [])) == ['items']
-        why = 'area = sum(pi r^2 over items) - sum(lens over tuple_combinations of items)' if ok else 'chains %s / %s' % (n1, n2)
+        ok1, why1, i1 = single_loop_sum(f, ab, ret_op=r['rv']['a'], nest=nst)
+        ok2, why2, i2 = single_loop_sum(f, ab, ret_op=r['rv']['b'], nest=nst, allow_adaptors=('tuple_combinations',),
+                                        opaque=('circle_overlap',))
+        ok = ok1 and ok2 and i1['source'] == (1, ['items']) and i2['loop']['adaptors'] == ['tuple_combinations']
         if ok:
-            # closures
-            m1 = [c for c in c1 if c[0] == 'map'][0][1]
-            m2 = [c for c in c2 if c[0] == 'map'][0][1]
-            cb1 = f.body(t.origin(m1['args'][1])['rv']['closure'])
-            cb2 = f.body(t.origin(m2['args'][1])['rv']['closure'])
-            n = Norm()
-            sx = SymEx(f)
-            o1 = sx.run(cb1, [SYM('env'), SYM('a')])
-            okd = len(o1) == 1
+            # the pair loop ranges over the same items
+            from ..nest import items_source as _is
+            pair_src = None
+            for nm, tt, cbb in i2['loop']['chain_terms']:
+                if nm == 'tuple_combinations':
+                    pair_src = _is(f, nst.tr, tt['args'][0])
+            ok = pair_src == (1, ['items'])
+        why = 'area = sum(pi r^2 over items) - sum(lens over tuple_combinations of items)' if ok else \
+            'total: %s / overlaps: %s' % (why1, why2)
+        if ok:
+            n = i1['norm']
+            it1 = i1['item']
+            okd = len(i1['terms']) == 1 and not [c for c in i1['terms'][0][0] if c[0] != 'assume']
             if okd:
-                try:
-                    okd = n.rf(o1[0].ret).equals(n.const(PI) * n.atom('a.radius') * n.atom('a.radius'))
-                except NotNumeric:
-                    okd = False
-            rep.check(okd, 'R5', 'single-disc-term-is-pi-r2', where(cb1), 'pi * r^2', 'the per-disc term is not pi r^2')
-            tc = Tracer(cb2)
-            calls = list(cb2.calls())
-            okp = len(calls) == 1 and call_matches(calls[0][1], 'circle_overlap') and calls[0][1]['dest']['l'] == 0
+                okd = i1['terms'][0][1].equals(n.const(PI) * n.atom(it1 + '.radius') * n.atom(it1 + '.radius'))
+            rep.check(okd, 'R5', 'single-disc-term-is-pi-r2', where(ab), 'pi * r^2', 'the per-disc term is not pi r^2')
+            n2 = i2['norm']
+            it2 = i2['item']
+            from ..sym import APP
+            okp = len(i2['terms']) == 1 and not [c for c in i2['terms'][0][0] if c[0] != 'assume']
             if okp:
-                a0, a1 = tc.origin(calls[0][1]['args'][0]), tc.origin(calls[0][1]['args'][1])
-                okp = field_path(a0.get('p', [])) == ['0'] and field_path(a1.get('p', [])) == ['1'] and a0.get('l') == a1.get('l') == 2
-            rep.check(okp, 'R5', 'pair-term-is-circle_overlap-of-the-pair', where(cb2), '|(a1,a2)| circle_overlap(a1,a2)',
+                want = n2.rf(APP('MolecularShape2::circle_overlap', SYM(it2 + '.0'), SYM(it2 + '.1')))
+                okp = i2['terms'][0][1].equals(want)
+            rep.check(okp, 'R5', 'pair-term-is-circle_overlap-of-the-pair', where(ab), '|(a1,a2)| circle_overlap(a1,a2)',
                       'the pair term does not apply circle_overlap to the two members of the pair')
     rep.check(ok, 'R5', 'inclusion-exclusion-to-second-order', where(ab), why, 'the disc-union area is not sum of discs minus each unordered pair\'s lens once: %s' % why)
     # lens formula
